@@ -223,13 +223,15 @@ def check(sel):
         save_idx(ix)
 
 
-def pcheck(jobs, sel):
+def pcheck(jobs, sel, outfile=None, override=None):
     """like check, but in JOBS scratch copies of the committed /verif and /repo under /tmp (the harness
     of each copy depends on its own copy of the repository), so that /repo itself is never touched"""
     import threading
     lock = threading.Lock()
     ix = load_idx()
-    done = load_chk()
+    outfile = outfile or CHK
+    override = override or {}
+    done = load_chk() if outfile == CHK else {}
     todo = [k for k in sorted(ix) if ix[k]["screen"] == "survives" and ((sel and k in sel) or (not sel and k not in done))]
     print("to check:", len(todo), flush=True)
 
@@ -247,7 +249,7 @@ def pcheck(jobs, sel):
             if rc != 0:
                 res = {"error": o[:200]}
             else:
-                for c in r["props"]:
+                for c in override.get(k, r["props"]):
                     t0 = time.time()
                     rc, o = sh("cd %s/verif && VERIF_REPO=%s/repo nice -n 5 ./check %s --tier quick" % (base, base, c), timeout=3000)
                     res[c] = {"exit": rc, "wall_s": round(time.time() - t0), "violations": [l[:200] for l in o.splitlines() if l.startswith("VIOLATION")][:2]}
@@ -258,9 +260,9 @@ def pcheck(jobs, sel):
                         break
                 sh("patch -R -p1 < %s" % os.path.join(SW, k + ".diff"), cwd=base + "/repo")
             with lock:
-                ck = load_chk()
+                ck = json.load(open(outfile)) if os.path.exists(outfile) else {}
                 ck[k] = {"checks": res, "caught": any(isinstance(v, dict) and v.get("exit") == 1 for v in res.values())}
-                json.dump(ck, open(CHK, "w"), indent=1, sort_keys=True)
+                json.dump(ck, open(outfile, "w"), indent=1, sort_keys=True)
         shutil.rmtree(base, ignore_errors=True)
 
     with ThreadPoolExecutor(jobs) as ex:
@@ -304,6 +306,10 @@ if __name__ == "__main__":
         check(sys.argv[2:])
     elif cmd == "pcheck":
         pcheck(int(sys.argv[2]), sys.argv[3:])
+    elif cmd == "recheck":
+        # recheck JOBS id:prop[,prop] ...   (results in sweep/rechecks.json)
+        ov = {a.split(":")[0]: a.split(":")[1].split(",") for a in sys.argv[3:]}
+        pcheck(int(sys.argv[2]), list(ov), os.path.join(SW, "rechecks.json"), ov)
     elif cmd == "report":
         report()
     elif cmd == "count":
